@@ -335,6 +335,8 @@ struct SchedState {
     occ: Vec<HashMap<(V, String), u32>>,
     /// How many operations matched each fault so far.
     fault_seen: Vec<u16>,
+    /// Actors that have been killed (all their operations fail).
+    frozen: Vec<bool>,
 }
 
 /// An injected storage error in a scheduled run: the `nth` (0-based) operation of `actor`
@@ -347,6 +349,10 @@ pub struct RaceFault {
     pub prefix: String,
     pub nth: u16,
     pub kind: Kind,
+    /// The actor is killed at this operation: if it is a write to a path that does not exist
+    /// an empty file is left there, and this and every later operation of the actor fails.
+    #[serde(default)]
+    pub freeze_torn: bool,
 }
 
 pub struct Sched {
@@ -374,6 +380,7 @@ impl Sched {
                 trace: vec![],
                 occ: vec![HashMap::new(); n_actors],
                 fault_seen: vec![0; faults.len()],
+                frozen: vec![false; n_actors],
             }),
             faults,
             cv: Condvar::new(),
@@ -458,10 +465,19 @@ impl Interceptor for ActorHook {
         let mut st = s.st.lock().unwrap();
         let index = st.trace.len();
         let mut injected = None;
+        if st.frozen[self.id] {
+            injected = Some(Kind::Other);
+        }
         for (fi, f) in s.faults.iter().enumerate() {
             if f.actor == self.id && f.verb.map_or(true, |v| v == verb) && call.path.starts_with(&f.prefix) {
                 if st.fault_seen[fi] == f.nth && injected.is_none() {
                     injected = Some(f.kind);
+                    if f.freeze_torn {
+                        st.frozen[self.id] = true;
+                        if verb == V::Write && pre == Pre::Absent {
+                            let _ = std::fs::write(s.root.join(&call.path), b"");
+                        }
+                    }
                 }
                 st.fault_seen[fi] = st.fault_seen[fi].saturating_add(1);
             }
